@@ -8,4 +8,5 @@ Extraction "batcher_model.ml" replay init candidates step quiescent next_due pen
   allowance_float allowance_ceil float_ceil_div ceil_div validate loop_obs
   sstep sinit capacity max_capacity held partition_count wanted
   lm_provision lm_create lm_lease
-  prun pinit arun ainit.
+  prun pinit arun ainit
+  prov_step prov_capacity prov_max_capacity.
